@@ -53,7 +53,9 @@ W = [
      'an undefined variable is treated as missing instead of being rejected'),
     ('scalararg', 'project', {'$add': '$a'}, {'_id': 0, 'a': 1},
      'a variadic operator given a bare operand instead of a list raises AssertionError / '
-     'TypeError'),
+     'TypeError ($sum / $avg / $min / $max: unless the operand is a path whose value is an array, '
+     'which they range over; any other value is iterated, a TypeError for numbers, booleans and '
+     'null)'),
     ('boolarith', 'project', {'$add': ['$f', 1]}, {'_id': 0, 'f': True},
      'booleans count as 0/1 in arithmetic and as array indexes'),
     ('adddate', 'project', {'$add': ['$t', 1000]}, {'_id': 0, 't': dt.datetime(2020, 1, 1)},
